@@ -36,6 +36,26 @@ CLAIMED = {
         "thresholds around the count, expectation = digest computed by Python hashlib (third implementation).",
    ref="4/C15", technique="Coq proof about the shaping model (MD5 modelled in Gallina) + differential correspondence incl. hashlib digests",
    note="Trusted: Coq kernel; MD5 model validated against RFC vectors/hashlib/md-5 crate, not proved against a second formalisation; rectangular answers for the count clause."),
+ "C02": dict(
+   text="Coq theorems C02_trace (the trace of run_multi is the concatenation of the events of exactly the records before the first halt / up to and "
+        "including the first failing record, failure reported at that record's location), C02_result, C02_halt, C02_compositional, C02_control_scope, "
+        "C02_sql_verbatim about the model of run_multi_async/run_async/apply_record, for all scripts, states and scripted databases. Correspondence: generated scripts of all "
+        "record kinds with history-dependent answers through run_multi and run_script_with_name, plus a Python reference interpreter for trace/result/line.",
+   ref="4/C02", technique="Coq proof (induction over the record list, trace relation) + differential correspondence vs Runner::run_multi/run_script",
+   note="Trusted: Coq kernel; model receives the implementation-parsed records (parser tie is C03); CLI path (main.rs re-implements the loop) covered by C16 when built."),
+ "C11": dict(
+   text="Coq theorems C11_guard (executed <=> every guard admits labels+engine name), C11_any_guard_skips, C11_skipped_*_is_silent (no request, no command, no output, "
+        "world counters unchanged), C11_skipped_cannot_fail, C11_admitted_statement_runs. Correspondence: all guard lists of <=2 guards (quick) / <=3 (thorough) over 4 labels x all 16 label sets x "
+        "3 record kinds x 3 positions, engine name set, with a direct evaluation of the property on the implementation (guarded ran?, neighbours ran once?).",
+   ref="4/C11", technique="Coq proof + exhaustive differential correspondence",
+   note="Trusted: Coq kernel; connection established before guards are evaluated (stated premise); that guards attach to the next record only is checked on the implementation directly and by the parser property C03."),
+ "C12": dict(
+   text="Coq theorems C12_refines_map (connection table refines a finite map; get creates exactly one fresh session on first use), C12_routing_statement/query, "
+        "C12_once_and_reused (over any run, incl. retries/halts/failures: invariant kept, one session per newly used name, bindings stable), C12_isolated, C12_shutdown. "
+        "Correspondence: generated scripts with arbitrary sequences of connection lines over {default, Default, DEFAULT, a, A, b, another}, per-session counter DB, failing connects, shutdown; "
+        "a name->session reference in the generator checks the implementation directly.",
+   ref="4/C12", technique="Coq proof (refinement to a finite map, invariant over runs) + differential correspondence",
+   note="Trusted: Coq kernel; partial: shutdown_all closes concurrently (join_all) - order canonicalised to a set."),
 }
 
 PENDING = "check not built yet in this session (machinery under construction); no claim is made"
